@@ -573,6 +573,8 @@ pub enum Pre {
     Withdraw,
     Collect,
     UpdateCfg,
+    /// the borrower, as owner of the vault, switches flash loans off in its callback
+    OwnerDisableLoans,
     Fail,
     Panic,
     Nested { other_vault: bool, frac: u8, inner: Box<Sym> },
@@ -593,6 +595,9 @@ pub struct Sym {
     pub pre_swallow: bool,
     pub repay_first: bool,
     pub rep: Rep,
+    /// a second action run right after `pre` (never swallowed): lets a script take a sibling loan or
+    /// deposit / withdraw / collect *after* a nested loan has completed
+    pub pre2: Option<Box<Pre>>,
 }
 
 impl Sym {
@@ -603,23 +608,36 @@ impl Sym {
             Pre::Withdraw => "wd".into(),
             Pre::Collect => "col".into(),
             Pre::UpdateCfg => "cfg".into(),
+            Pre::OwnerDisableLoans => "owner-disables-loans".into(),
             Pre::Fail => "fail".into(),
             Pre::Panic => "panic".into(),
             Pre::Nested { other_vault, frac, inner } => format!("loan[{}{}:{}]", if *other_vault { "other" } else { "same" }, frac, inner.label()),
         };
-        format!("{}{}{}>{:?}", p, if self.pre_swallow { "~" } else { "" }, if self.repay_first { "<" } else { "" }, self.rep)
+        let p2 = match self.pre2.as_deref() {
+            None => String::new(),
+            Some(Pre::Nested { inner, .. }) => format!("+loan[{}]", inner.label()),
+            Some(Pre::Deposit) => "+dep".into(),
+            Some(Pre::Withdraw) => "+wd".into(),
+            Some(Pre::Collect) => "+col".into(),
+            Some(_) => "+?".into(),
+        };
+        format!("{}{}{}{}>{:?}", p, if self.pre_swallow { "~" } else { "" }, p2, if self.repay_first { "<" } else { "" }, self.rep)
     }
     pub fn depth(&self) -> u32 {
         match &self.pre {
             Pre::Nested { inner, .. } => 1 + inner.depth(),
             _ => 1,
         }
+        .max(match self.pre2.as_deref() {
+            Some(Pre::Nested { inner, .. }) => 1 + inner.depth(),
+            _ => 1,
+        })
     }
     pub fn only_exact(&self) -> bool {
-        self.pre == Pre::None && self.rep == Rep::Exact
+        self.pre == Pre::None && self.pre2.is_none() && self.rep == Rep::Exact
     }
     pub fn only_minus1(&self) -> bool {
-        self.pre == Pre::None && self.rep == Rep::Minus1
+        self.pre == Pre::None && self.pre2.is_none() && self.rep == Rep::Minus1
     }
 }
 
@@ -638,13 +656,36 @@ fn simple_pres() -> Vec<(Pre, bool, bool)> {
     v
 }
 
+/// hand-picked scripts outside the product alphabet: two actions in a row at one level (sibling loans, an action
+/// after a completed nested loan, the owner-borrower switching loans off before depositing)
+pub fn special_scripts() -> Vec<Sym> {
+    let exact = Sym { pre: Pre::None, pre_swallow: false, repay_first: false, rep: Rep::Exact, pre2: None };
+    let nested = |inner: Sym| Pre::Nested { other_vault: false, frac: 2, inner: Box::new(inner) };
+    let mut out = vec![];
+    for rep in [Rep::Exact, Rep::Minus1, Rep::PrincipalOnly] {
+        // L0[ L1 ; L2 ] siblings
+        out.push(Sym { pre: nested(exact.clone()), pre_swallow: false, repay_first: false, rep: rep.clone(), pre2: Some(Box::new(nested(exact.clone()))) });
+        // L0[ L1[L2] ] depth 3
+        out.push(Sym { pre: nested(Sym { pre: nested(exact.clone()), pre_swallow: false, repay_first: false, rep: Rep::Exact, pre2: None }), pre_swallow: false, repay_first: false, rep: rep.clone(), pre2: None });
+        // L0[ L1 ; deposit / withdraw / collect ]
+        for p2 in [Pre::Deposit, Pre::Withdraw, Pre::Collect] {
+            out.push(Sym { pre: nested(exact.clone()), pre_swallow: false, repay_first: false, rep: rep.clone(), pre2: Some(Box::new(p2)) });
+        }
+        // owner-borrower: switch loans off, then deposit
+        for sw in [false, true] {
+            out.push(Sym { pre: Pre::OwnerDisableLoans, pre_swallow: sw, repay_first: false, rep: rep.clone(), pre2: Some(Box::new(Pre::Deposit)) });
+        }
+    }
+    out
+}
+
 /// all scripts of nesting depth exactly `d` (d >= 1)
 pub fn scripts_of_depth(d: u32) -> Vec<Sym> {
     if d == 1 {
         let mut out = vec![];
         for (p, sw, rf) in simple_pres() {
             for r in REPS.iter() {
-                out.push(Sym { pre: p.clone(), pre_swallow: sw, repay_first: rf, rep: r.clone() });
+                out.push(Sym { pre: p.clone(), pre_swallow: sw, repay_first: rf, rep: r.clone(), pre2: None });
             }
         }
         return out;
@@ -656,7 +697,7 @@ pub fn scripts_of_depth(d: u32) -> Vec<Sym> {
             for frac in [1u8, 2u8] {
                 for sw in [false, true] {
                     for r in REPS.iter() {
-                        out.push(Sym { pre: Pre::Nested { other_vault: other, frac, inner: Box::new(i.clone()) }, pre_swallow: sw, repay_first: false, rep: r.clone() });
+                        out.push(Sym { pre: Pre::Nested { other_vault: other, frac, inner: Box::new(i.clone()) }, pre_swallow: sw, repay_first: false, rep: r.clone(), pre2: None });
                     }
                 }
             }
@@ -678,39 +719,49 @@ pub fn bind(wd: &VaultWorld, v: usize, loan: u128, s: &Sym, plus_k: u128) -> Vec
         Rep::PrincipalOnly => RepayMode::PrincipalOnly,
     };
     let repay = Step { act: Act::Repay { vault: vault.clone(), asset: asset.clone(), loan: Uint128::new(loan), mode }, swallow: false };
-    let pre: Option<Step> = match &s.pre {
-        Pre::None => None,
-        Pre::Deposit => Some(Act::Deposit { vault: vault.clone(), asset: asset.clone(), amount: Uint128::new((loan / 2).max(1001)) }),
-        Pre::Withdraw => {
-            let have = bal_cw20(&wd.app, &h.lp, &wd.borrower);
-            Some(Act::Withdraw { vault: vault.clone(), lp_token: h.lp.to_string(), lp: Uint128::new((have / 3).max(1)) })
+    let act_of = |p: &Pre| -> Option<Act> {
+        match p {
+            Pre::None => None,
+            Pre::Deposit => Some(Act::Deposit { vault: vault.clone(), asset: asset.clone(), amount: Uint128::new((loan / 2).max(1001)) }),
+            Pre::Withdraw => {
+                let have = bal_cw20(&wd.app, &h.lp, &wd.borrower);
+                Some(Act::Withdraw { vault: vault.clone(), lp_token: h.lp.to_string(), lp: Uint128::new((have / 3).max(1)) })
+            }
+            Pre::Collect => Some(Act::CollectFees { vault: vault.clone() }),
+            Pre::UpdateCfg => Some(Act::UpdateConfigAttempt { vault: vault.clone() }),
+            Pre::OwnerDisableLoans => Some(Act::OwnerToggle { vault: vault.clone(), flash_loan_enabled: Some(false), deposit_enabled: None, withdraw_enabled: None }),
+            Pre::Fail => Some(Act::Fail),
+            Pre::Panic => Some(Act::Panic),
+            Pre::Nested { other_vault, frac, inner } => {
+                let tv = if *other_vault { 1 - v } else { v };
+                let tb = wd.vaults[tv].asset.balance(&wd.app, &wd.vaults[tv].addr);
+                // the inner loan can take what is left in the target vault
+                let avail = if tv == v { tb.saturating_sub(loan) } else { tb };
+                let amt = match frac {
+                    1 => avail,
+                    _ => (avail / 2).max(1),
+                };
+                let inner_script = bind(wd, tv, amt, inner, plus_k);
+                Some(Act::Loan { vault: wd.vaults[tv].addr.to_string(), amount: Uint128::new(amt), script: inner_script })
+            }
         }
-        Pre::Collect => Some(Act::CollectFees { vault: vault.clone() }),
-        Pre::UpdateCfg => Some(Act::UpdateConfigAttempt { vault: vault.clone() }),
-        Pre::Fail => Some(Act::Fail),
-        Pre::Panic => Some(Act::Panic),
-        Pre::Nested { other_vault, frac, inner } => {
-            let tv = if *other_vault { 1 - v } else { v };
-            let tb = wd.vaults[tv].asset.balance(&wd.app, &wd.vaults[tv].addr);
-            // the inner loan can take what is left in the target vault
-            let avail = if tv == v { tb.saturating_sub(loan) } else { tb };
-            let amt = match frac {
-                1 => avail,
-                _ => (avail / 2).max(1),
-            };
-            let inner_script = bind(wd, tv, amt, inner, plus_k);
-            Some(Act::Loan { vault: wd.vaults[tv].addr.to_string(), amount: Uint128::new(amt), script: inner_script })
-        }
-    }
-    .map(|a| Step { act: a, swallow: s.pre_swallow });
+    };
+    let pre: Option<Step> = act_of(&s.pre).map(|a| Step { act: a, swallow: s.pre_swallow });
+    let pre2: Option<Step> = s.pre2.as_deref().and_then(act_of).map(|a| Step { act: a, swallow: false });
     let mut out = vec![];
     if s.repay_first {
         out.push(repay);
         if let Some(p) = pre {
             out.push(p);
         }
+        if let Some(p) = pre2 {
+            out.push(p);
+        }
     } else {
         if let Some(p) = pre {
+            out.push(p);
+        }
+        if let Some(p) = pre2 {
             out.push(p);
         }
         out.push(repay);
@@ -850,5 +901,16 @@ pub fn gen_script(r: &mut Rng, depth_left: u32) -> Sym {
             }
         }
     };
-    Sym { pre, pre_swallow: r.chance(1, 2), repay_first: rf, rep }
+    // after a nested loan: sometimes a second action at the same level (sibling loan, deposit, withdraw, collect)
+    let pre2 = if matches!(pre, Pre::Nested { .. }) && r.chance(1, 2) {
+        Some(Box::new(match r.below(5) {
+            0 | 1 => Pre::Nested { other_vault: false, frac: 2, inner: Box::new(gen_script(r, 1)) },
+            2 => Pre::Deposit,
+            3 => Pre::Withdraw,
+            _ => Pre::Collect,
+        }))
+    } else {
+        None
+    };
+    Sym { pre, pre_swallow: r.chance(1, 2), repay_first: rf, rep, pre2 }
 }
